@@ -143,4 +143,46 @@ mod verif_oracle_poplar1 {
             }
         }
     }
+
+    // unit poplar1_agg: Collector::unshard folds the aggregate shares into ZERO(level, number of prefixes) of the collection's own
+    // aggregation parameter: shares of another tree level or another length are refused wherever they stand; matching shares sum.
+    #[test]
+    fn oracle_unshard_mismatch() {
+        use crate::vdaf::Collector;
+        use crate::field::{Field64, Field255};
+        let bits = 4usize;
+        let vdaf = Poplar1::new_turboshake128(bits);
+        let pfx = |level: usize, n: usize| -> Poplar1AggregationParam {
+            let mut v: Vec<IdpfInput> = (0..n).map(|k| IdpfInput::from_bools(&(0..=level).map(|b| (k >> (level - b)) & 1 == 1).collect::<Vec<bool>>())).collect();
+            v.sort(); v.dedup();
+            Poplar1AggregationParam::try_from_prefixes(v).unwrap()
+        };
+        let inner = |len: usize, s: u64| Poplar1FieldVec::Inner((0..len).map(|i| Field64::from(s + i as u64)).collect());
+        let leaf = |len: usize, s: u64| Poplar1FieldVec::Leaf((0..len).map(|i| Field255::from(s + i as u64)).collect());
+        // (level, number of prefixes, shares, should be accepted, description)
+        let inner_param = pfx(1, 2);
+        let leaf_param = pfx(bits - 1, 2);
+        let cases: Vec<(&Poplar1AggregationParam, Vec<Poplar1FieldVec>, Option<Vec<u64>>, &str)> = vec![
+            (&inner_param, vec![inner(2, 1), inner(2, 10)], Some(vec![11, 13]), "two matching inner shares"),
+            (&leaf_param, vec![leaf(2, 1), leaf(2, 10)], Some(vec![11, 13]), "two matching leaf shares"),
+            (&inner_param, vec![], Some(vec![0, 0]), "no shares"),
+            (&leaf_param, vec![inner(2, 1), inner(2, 10)], None, "inner-level shares for a leaf-level collection"),
+            (&inner_param, vec![leaf(2, 1), leaf(2, 10)], None, "leaf-level shares for an inner-level collection"),
+            (&inner_param, vec![inner(3, 1), inner(3, 10)], None, "3-entry shares for a 2-prefix collection"),
+            (&inner_param, vec![inner(1, 1)], None, "a single 1-entry share for a 2-prefix collection"),
+            (&inner_param, vec![inner(2, 1), inner(3, 10)], None, "a second share of the wrong length"),
+            (&inner_param, vec![inner(2, 1), leaf(2, 10)], None, "a second share of the wrong level"),
+        ];
+        for (param, shares, want, what) in cases {
+            let n = shares.len();
+            let r = std::panic::catch_unwind(|| vdaf.unshard(param, shares, n));
+            match (r, want) {
+                (Err(_), _) => println!("COUNTEREXAMPLE Poplar1 unshard panics on {}", what),
+                (Ok(Ok(got)), Some(w)) => if got != w { println!("COUNTEREXAMPLE Poplar1 unshard of {} gives {:?}, the element-wise sum is {:?}", what, got, w); },
+                (Ok(Err(e)), Some(_)) => println!("COUNTEREXAMPLE Poplar1 unshard refuses {}: {}", what, e),
+                (Ok(Ok(got)), None) => println!("COUNTEREXAMPLE Poplar1 unshard accepts {} (level {}, {} prefixes) and returns {:?}: aggregate shares of a mismatched level or length are not refused", what, param.level(), param.prefixes().len(), got),
+                (Ok(Err(_)), None) => {}
+            }
+        }
+    }
 }
